@@ -65,7 +65,7 @@ class Gen:
         et = [0x86, 0xdd] if v6 else [0x08, 0x00]
         macs = self.octets(12)
         if r.random() < 0.4:
-            tci = r.choice([1, 100, 4094, 4095, r.randrange(1, 4096)])   # PCP/DEI = 0 (domain)
+            tci = r.choice([0, 0, 1, 100, 4094, 4095, r.randrange(0, 4096)])   # PCP/DEI = 0 (domain); 0 = priority-tagged
             return 1, macs + [0x81, 0x00] + u16(tci) + et + self.l3(v6)
         return 1, macs + et + self.l3(v6)
 
@@ -87,7 +87,7 @@ class Gen:
         if k < 0.75:
             v6 = r.random() < 0.5
             return self.xrec([0, 0, 3, 234], u32(2 if v6 else 1) + self.octets(16 if v6 else 4) + self.w32() + self.w32())
-        tag = r.choice([[0, 0, 3, 235], [0, 0, 3, 236], [0, 0, 0, 2], [0, 0, 0, 3], [0, 1, 16, 1], [0, 0, 16, 1], [0, 0, 19, 233]])
+        tag = r.choice([[0, 0, 3, 235], [0, 0, 3, 236], [0, 0, 0, 2], [0, 0, 0, 3], [0, 0, 0, 0], [0, 1, 16, 1], [0, 0, 16, 1], [0, 0, 19, 233]])
         return self.xrec(tag, self.octets(r.choice([0, 4, 8, 12, 40])))
 
     def counter_record(self):
@@ -95,7 +95,7 @@ class Gen:
         if r.random() < 0.8:
             fmt = r.choice(sorted(COUNTER_W))
             return self.xrec(u32(fmt), self.octets(COUNTER_W[fmt]))
-        tag = r.choice([[0, 0, 0, 6], [0, 0, 7, 208], [0, 0, 16, 1], [0, 1, 0, 1]])
+        tag = r.choice([[0, 0, 0, 6], [0, 0, 0, 0], [0, 0, 7, 208], [0, 0, 16, 1], [0, 1, 0, 1]])
         return self.xrec(tag, self.octets(r.choice([0, 4, 16, 52])))
 
     def sample(self):
@@ -109,7 +109,7 @@ class Gen:
             recs = [self.counter_record() for _ in range(r.choice([0, 1, 2, 3, 6]))]
             body = self.w32() + self.octets(4) + u32(len(recs))
             return 2, self.xrec([0, 0, 0, 2], body + [o for x in recs for o in x])
-        tag = r.choice([[0, 0, 0, 3], [0, 0, 0, 4], [0, 0, 0, 7], [0, 0, 15, 255], [0, 1, 16, 1], [0, 0, 16, 2], [255, 255, 240, 1]])
+        tag = r.choice([[0, 0, 0, 3], [0, 0, 0, 4], [0, 0, 0, 0], [0, 0, 0, 0], [0, 0, 0, 7], [0, 0, 15, 255], [0, 1, 16, 1], [0, 0, 16, 2], [255, 255, 240, 1]])
         fmt = (tag[2] % 16) * 256 + tag[3] if tag[:2] == [0, 0] and tag[2] < 16 else -1
         return fmt, self.xrec(tag, self.octets(r.choice([0, 4, 8, 60])))
 
